@@ -46,6 +46,15 @@ for module in [colang_ast_module, flows_module]:
             name_to_class[attribute_name] = attribute
 
 
+def _is_shared_list(encoded: list) -> bool:
+    """Whether the JSON array is the marked encoding of a list used in several places."""
+    return (
+        len(encoded) == 1
+        and isinstance(encoded[0], dict)
+        and encoded[0].get("__type") == "list"
+    )
+
+
 def encode_to_dict(obj: Any, refs: Dict[int, Any]):
     """Helper to encode a hierarchy of objects to a dict.
 
@@ -62,16 +71,28 @@ def encode_to_dict(obj: Any, refs: Dict[int, Any]):
 
     # If we've already encoded this particular object, we just make a reference
     if obj_id in refs:
-        # Increase the reference count for that object
-        refs[obj_id]["__ref_count"] = refs[obj_id].get("__ref_count", 0) + 1
-        # And make sure the id is also present in the dict
-        refs[obj_id]["__id"] = obj_id
+        encoded = refs[obj_id]
+        if isinstance(encoded, list):
+            # A list that is used in more than one place: its first encoding (a plain
+            # JSON array) is turned, in place, into a marked one that can carry the id.
+            if not _is_shared_list(encoded):
+                encoded[:] = [
+                    {"__type": "list", "__id": obj_id, "value": list(encoded)}
+                ]
+        else:
+            # Increase the reference count for that object
+            encoded["__ref_count"] = encoded.get("__ref_count", 0) + 1
+            # And make sure the id is also present in the dict
+            encoded["__id"] = obj_id
 
         return {"__type": "ref", "__id": obj_id}
 
-    # For primitive values and lists, we leave as is
+    # Lists are encoded as plain JSON arrays (and registered like every other container,
+    # so that two references to the same list are restored as one list).
     if isinstance(obj, list):
-        return [encode_to_dict(v, refs) for v in obj]
+        value = [encode_to_dict(v, refs) for v in obj]
+        refs[obj_id] = value
+        return value
     elif (
         isinstance(obj, str)
         or isinstance(obj, int)
@@ -237,6 +258,10 @@ def decode_from_dict(d: Any, refs: Dict[int, Any]):
         else:
             return {k: decode_from_dict(v, refs) for k, v in d.items()}
     elif isinstance(d, list):
+        if _is_shared_list(d):
+            value = [decode_from_dict(v, refs) for v in d[0]["value"]]
+            refs[d[0]["__id"]] = value
+            return value
         return [decode_from_dict(v, refs) for v in d]
     else:
         return d
